@@ -18,11 +18,21 @@ def project(t):
 def correspondence(ctx):
     cases = S.cases_for(ctx, 30000, 600000)
     S.run(ctx, cases, lambda fam, i: G.BTC, project)
+    # the same verdicts where the property observes them: scripts as transaction outputs through read_block -> eval_script,
+    # incl. scripts longer than 10 000 bytes (boundary families in full, a sample of the bulk)
+    r = ctx.sub_rnd("out-path")
+    sub = [c for i, c in enumerate(cases) if len(c[1]) < 2000 and (i < 5000 or i % 7 == 0)][:ctx.n(3500, 80000)]
+    sub += list(S.long_scripts(r, ctx.thorough()))
+    S.run_via_outputs(ctx, sub, lambda fam, i: ["bitcoin", "testnet3"] if i % 2 == 0 or fam.startswith("long") else [["bitcoin", "testnet3"][i % 3 % 2]])
 
 
 def replay(ctx, rep, corpus=None):
+    if rep.get("failing_input", rep).get("via") == "block":
+        return S.replay_via_outputs(ctx, rep)
     S.replay_one(ctx, rep, project)
 
 
 def shrink(ctx, d):
+    if d.get("via") == "block":
+        return d
     return S.shrink_script(ctx, d, project)
